@@ -53,7 +53,7 @@ def cases(tier, seed):
                 if tier == "thorough" and R <= 3:
                     combos = list(itertools.product(PVARS, REFS, b["numrec"]))
                 for pv, ref, numrec in combos:
-                    out.append(dict(hist=[list(h) for h in hist], layout=layout, period=period, pvars=pv, ref=ref, numrec=numrec, packed=bool((idx // 5) % 2)))
+                    out.append(dict(hist=[list(h) for h in hist], layout=layout, period=period, pvars=pv, ref=ref, numrec=numrec, packed=bool((idx // 5) % 2), itime=bool(idx % 5 == 2)))
                     # the same history in a time-reversed run: all histories up to 2 records, every fourth beyond (thorough: with the round-robin combination)
                     if R <= 2 or ((idx % 4 == 0 or (tier == "thorough" and R == 3)) and (pv, ref, numrec) == (PVARS[idx % 3], REFS[(idx // 3) % 3], b["numrec"][(idx // 9) % 2])):
                         out.append(dict(hist=[list(h) for h in hist], layout=layout, period=period, pvars=pv, ref=ref, numrec=numrec, rev=True, packed=bool((idx // 7) % 2)))
@@ -85,6 +85,8 @@ def plan(case):
             npid += 1
             info[pid] = dict(X=3.0 + (pid % 16) * 0.5 + 0.015625 * (pid // 16 % 8), Y=4.0 + (pid % 3), Z=1.0 + pid % 40, weight=10.0 + pid, t=S0 + sign * s * DT)
             rows.append(dict(release_time=world.iso(S0 + sign * s * DT), X=info[pid]["X"], Y=info[pid]["Y"], Z=info[pid]["Z"], weight=info[pid]["weight"]))
+            if case.get("itime"):  # a time-typed INSTANCE variable: the hour after the release, carried by the particle
+                rows[-1]["born"] = world.iso(S0 + sign * s * DT + 3600)
             living.append(pid)
         rec_living.append(list(living))
         released_at_rec.append(npid)
@@ -142,6 +144,9 @@ def _run_once(case, tables=None, ref_override=None):
         ibm=dict(module=drive.plug("sibm.py"), kills={str(k): v for k, v in pl["kills"].items()}, age=True),
         particle_out=pout or None, reference=refsec,
     )
+    if case.get("itime"):
+        conf["state"]["instance_variables"]["born"] = "time"
+        conf["output"]["instance_variables"]["born"] = world.ovar("f8", units="seconds since reference_time")
     if case.get("packed"):  # X stored packed (16-bit integers, scale 1/64): every position of this scenario is a multiple of 1/64, so the packing is exact
         conf["output"]["instance_variables"]["X"] = world.ovar("i2", scale_factor=0.015625)
     if tables is not None:
@@ -220,6 +225,18 @@ def _run_once(case, tables=None, ref_override=None):
                     elif not is_fill(val if val is np.ma.masked else float(val)):
                         bad("dense-fill", f"record {i} {v}[{pid}]={val} expected fill (particle {'dead' if pid < pl['released'][i] else 'not released'})")
                         break
+        if case.get("itime"):  # the time-typed instance variable: seconds since the file's reference time, for the living particles of the record
+            expb = {pid: float(pl["info"][pid]["t"] + 3600 - exp_ref) for pid in spid}
+            rowb = np.ma.asarray(r["vars"].get("born", []))
+            gotb = dict(zip(spid, np.asarray(rowb, float).tolist())) if layout == "sparse" else {pid: (float(rowb[pid]) if pid < len(rowb) else None) for pid in spid}
+            if gotb != expb:
+                bad("record-values:time-typed-instance-variable", f"record {i} born={gotb} expected {expb} (seconds since {world.iso(exp_ref)})")
+    if case.get("itime"):
+        for f in out["files"]:
+            with Dataset(d / f["name"]) as nc_:
+                u = getattr(nc_.variables["born"], "units", None) if "born" in nc_.variables else None
+            if u != f"seconds since {np.datetime64(int(exp_ref), 's')}":
+                bad("time-units:instance-variable", f"{f['name']}: born units {u!r} expected seconds since {world.iso(exp_ref)}")
     # particle variables: index pid for every particle released up to the file's last record
     if case["pvars"] != "none":
         for j, f in enumerate(out["files"]):
